@@ -44,11 +44,15 @@ class _Alt:
     def __init__(self, v): self.document = _Doc(v)
 
 def generate(rng, tier):
-    n = 350 if tier == "quick" else 6000
+    n = 350 if tier == "quick" else 20000
     cases = []
     for _ in range(n):
         bad = rng.random() < 0.15
-        if bad:
+        if bad and rng.random() < 0.5:
+            # a numeral followed by a token that is not a unit but is made of the letters of one (or repeats one): 10mmm, 7ppx, 2%%, 5pxpx
+            tok = rng.choice(["mmm", "ppx", "nin", "mcm", "%%", "pxpx", "qq", "QQ", "ptt", "inn", "cmm", "ccm", "tpt", "ppc", "mmcm", "xpx", "iin", "pcc", "pxx", "mmmm", "p", "m", "i", "xp", "mp"])
+            s = rng.choice(WS) + _numeral(rng) + tok + rng.choice(WS); u = None
+        elif bad:
             s = rng.choice(WS) + rng.choice(BAD) + rng.choice(WS); u = None
         else:
             u = rng.choice(UNITS); s = rng.choice(WS) + _numeral(rng) + u + rng.choice(WS)
